@@ -528,6 +528,9 @@ class Executor:
             bv_ = bcell.val
             if bv_ is None:
                 bv_ = self._materialise(st, fr, base_pl, bcell)
+            hops = 0
+            while isinstance(bv_, Ref) and hops < 3:      # a summary handed over one reference level too many (&&T where &T is expected): see through it
+                bv_ = bv_.cell.val; hops += 1
             if isinstance(bv_, Obj):
                 c = bv_.fields.get(idx)
                 if c is None:
